@@ -211,7 +211,7 @@ _S2 = {}
 
 
 def run(tier, seed, open_findings):
-    jobs = [(nf, ft, kind, ver, seed, tier) for nf in (1, 2) for ft in LEX for kind in ('key', 'unique') for ver in ('1.0', '1.1')]
+    jobs = [(nf, ft, kind, ver, seed, tier) for nf in (1, 2) for ft in LEX for kind in ('key', 'unique') for ver in ('1.0', '1.1') if not (nf == 2 and ft in DEFAULTS and tier != 'thorough')]
     jobs += [(1, ft, kind, '1.1', seed, tier, True) for ft in ('integer', 'decimal', 'boolean', 'UIntBool') for kind in ('key', 'unique')]
     res = pmap(eval_template, jobs, procs=16, chunk=1)
     fails = [dict(case=dict(template=list(r['template']), doc=b['doc']), observed=dict(valid=b['got'], keys=b['krows'], refs=b['frows']), required=dict(valid=b['exp'])) for r in res for b in r['bad']]
